@@ -155,18 +155,31 @@ func borderReplay(args []string) int {
 				polygon = geom.Polygon{small, ring}
 			}
 			// (1) SnapPolygon with keep-points-and-lines on, so an accepted polygon always returns something
-			outcome := func() (oc string) {
+			snapWith := func(ids []tms20.TMID) (oc string) {
 				defer func() {
 					if r := recover(); r != nil {
 						oc = classifyPanic(r)
 					}
 				}()
-				res := snap.SnapPolygon(polygon, g.tms, []tms20.TMID{g.Z}, snap.Config{KeepPointsAndLines: true, IgnoreOutsideGrid: v.Ig})
+				res := snap.SnapPolygon(polygon, g.tms, ids, snap.Config{KeepPointsAndLines: true, IgnoreOutsideGrid: v.Ig})
 				if len(res) == 0 {
 					return "empty"
 				}
 				return "snapped"
-			}()
+			}
+			outcome := snapWith([]tms20.TMID{g.Z})
+			// (1b) the same with coarser tile matrices requested as well, deepest first or last: the extent does not depend on the request
+			outcomeMulti := outcome
+			if g.Z >= 1 {
+				ids := []tms20.TMID{g.Z, g.Z - 1}
+				if total%2 == 0 {
+					ids = []tms20.TMID{g.Z - 1, g.Z}
+				}
+				if g.Z >= 2 && total%3 == 0 {
+					ids = append(ids, 0)
+				}
+				outcomeMulti = snapWith(ids)
+			}
 			// (2) InsertPoint on a fresh index
 			ins := func() (oc string) {
 				defer func() {
@@ -192,18 +205,19 @@ func borderReplay(args []string) int {
 			if v.Inside {
 				wantIns = "inserted"
 			}
-			okOutcome := outcome == v.Expect
+			okOutcome := outcome == v.Expect && outcomeMulti == v.Expect
 			okIns := ins == wantIns
 			if v.Inside && !g.Round {
 				// only-if direction: on a grid that does not divide evenly the tool may refuse a vertex inside the
 				// extent close to the far border (that is C06's concern, finding F10), but it must never accept outside.
-				okOutcome = outcome == v.Expect || outcome == "panic-outside-grid" || outcome == "empty"
+				okOutcome = (outcome == v.Expect || outcome == "panic-outside-grid" || outcome == "empty") &&
+					(outcomeMulti == v.Expect || outcomeMulti == "panic-outside-grid" || outcomeMulti == "empty")
 				okIns = ins == wantIns || ins == "outside-grid-error"
 			}
 			if !okOutcome || !okIns {
 				bad++
 				if bad <= 2000 {
-					out.put(map[string]any{"mismatch": true, "vec": v, "grid": g.Name, "z": g.Z, "ring": ring, "polygon": polygon, "snap_outcome": outcome, "insert_outcome": ins, "want_insert": wantIns})
+					out.put(map[string]any{"mismatch": true, "vec": v, "grid": g.Name, "z": g.Z, "ring": ring, "polygon": polygon, "snap_outcome": outcome, "snap_outcome_multi": outcomeMulti, "insert_outcome": ins, "want_insert": wantIns})
 				}
 			}
 		}
